@@ -296,12 +296,12 @@ def plan(prop, tier):
             steps.append(S("c18-alloc", c, profile="dbg", shards=20, scale=0.25))
     elif prop == "C17":
         cfgs = ["default", "unsafe", "naive", "unsafe-naive", "static-sse2", "static-sse41", "static-avx2",
-                "unsafe-static-avx2", "strict", "serde-strict"]
+                "unsafe-static-avx2", "strict", "serde-strict", "lowmem-b", "unsafe-lowmem-b"]
         if not q:
-            cfgs += ["unsafe-static-sse41", "unsafe-lowmem-b", "lowmem-a", "lowmem-b", "lowmem-c", "embedded", "serde-unsafe-strict"]
+            cfgs += ["unsafe-static-sse41", "lowmem-a", "lowmem-c", "embedded", "serde-unsafe-strict"]
         for c in cfgs:
             steps.append(S("c17-fuzz", c, shards=8, scale=1.0 if c in ("default", "unsafe") else 0.25, crash_is_violation=True))
-        for c in ["default", "unsafe", "naive", "static-sse41", "strict"]:
+        for c in ["default", "unsafe", "naive", "static-sse41", "strict", "lowmem-b"]:
             steps.append(S("c17-fuzz", c, profile="dbg", shards=8, scale=0.25, crash_is_violation=True))
         for c in ["inv-default", "inv-naive", "inv-serde-strict"]:
             steps.append(S("c17-fuzz", c, shards=8, scale=0.5, crash_is_violation=True))
